@@ -2,6 +2,7 @@
 from engine import guards as G
 from engine import mir
 from . import common as K
+from . import detectors as D
 from .common import A, fshort
 
 EXPLANATION = (
@@ -20,30 +21,8 @@ RS = SH + "reed_solomon::ReedSolomonCoder"
 IMPLS = ["RegularShredder", "CodingOnlyShredder", "PetsShredder", "AontShredder"]
 
 
-def const_side(t):
-    """integer value of a term if it is a literal or a named integer const"""
-    t = K.peel(t)
-    if isinstance(t, tuple) and t[0] == "const" and isinstance(t[2], int):
-        return t[2]
-    return None
-
-
-def err_set(atom, xs):
-    """for a normalised comparison atom with a constant on one side: the set of x in xs for which the atom (with its polarity) holds"""
-    pred, args, pol = atom[0], atom[1], atom[2]
-    if pred not in ("lt", "eq"):
-        return None
-    ca, cb = const_side(args[0]), const_side(args[1])
-    if (ca is None) == (cb is None):
-        return None
-    out = set()
-    for x in xs:
-        a = ca if ca is not None else x
-        b = cb if cb is not None else x
-        v = (a < b) if pred == "lt" else (a == b)
-        if v == pol:
-            out.add(x)
-    return out
+const_side = D.const_side
+err_set = D.holds_set
 
 
 def assoc_const(prog, impl_ty, name):
